@@ -4,7 +4,7 @@
 set -u
 ID="$1"; PKG="$2"; RUN="$3"; DEMO="${4:-zz_seed_demo_test.go}"
 S=/var/tmp/verif-seedv-$$; trap 'rm -rf "$S"' EXIT
-mkdir -p "$S" && cp -r /repo/go "$S/go" && cp "/verif/seeded/$ID/$DEMO" "$S/go/$PKG/$DEMO"
+mkdir -p "$S" && cp -r /repo/go "$S/go" && cp "/verif/seeded/$ID/$DEMO" "$S/go/$PKG/$(basename "$DEMO")"
 export GOFLAGS=-mod=mod GOPROXY=off
 cd "$S/go"
 go test -count=1 -timeout 60m -run "$RUN" "./$PKG/" > "$S/without.log" 2>&1; W=$?
